@@ -577,7 +577,7 @@ ReplayRestores ==
   [][\A n \in Honest : (~node[n].up /\ node'[n].up /\ ~node[n].torn) =>
         RestoredFields(node'[n]) = RestoredFields(node[n])]_vars
 \* the same, for the fields that do not depend on who the node believes the proposer is
-RestoredVotes(s) == <<s.h, s.lr, s.lb, s.pv, s.pc, s.cr, s.dec>>
+RestoredVotes(s) == <<s.h, s.pv, s.pc, s.cr, s.dec>>
 ReplayRestoresVotes ==
   [][\A n \in Honest : (~node[n].up /\ node'[n].up /\ ~node[n].torn) =>
         RestoredVotes(node'[n]) = RestoredVotes(node[n])]_vars
